@@ -31,6 +31,15 @@ def ctl_swallow(x: int) -> int:
         return 0
 
 
+def ctl_genreuse(xs: List[int], ys: List[int]) -> int:
+    seen = (x for x in xs)
+    n = 0
+    for y in ys:
+        if y in seen:
+            n += 1
+    return n
+
+
 _ctl_state: List[int] = []
 
 
